@@ -15,7 +15,7 @@ func init() {
 	Register(&c13{base{
 		id: "C13", level: "exploration",
 		technique: "metamorphic monitor: template with a subset of its delimiters dashed vs the same template with the dashes removed and the governed whitespace deleted by the generator; all 2^d subsets for d <= 10 delimiters, random subsets above",
-		rule: "case = (template from a per-tag-kind corpus or a generated program, dash subset, whitespace padding of every text piece drawn from {space, tab, CR, LF}^0..4 around a non-blank core that in a sixth of the pieces starts or ends with a look-alike that is not one of the four (NBSP, VT, FF, NEL, U+2003, U+2028, U+3000, NUL, BOM, ZWSP, 0x1F, a lone 0xA0 byte)); both versions are rendered once on fresh engines; outputs must be equal and the dashed version must parse whenever the plain one does. After the dashed render a fixed probe template without dashes is parsed on a fresh engine and must render as written, and both versions are parsed and rendered a second time with the same result (a dash has no effect on the templates parsed after it). " +
+		rule: "case = (template from a per-tag-kind corpus or a generated program, dash subset, whitespace padding of every text piece drawn from {space, tab, CR, LF}^0..4 around a non-blank core that in a sixth of the pieces starts or ends with a look-alike that is not one of the four (NBSP, VT, FF, NEL, U+2003, U+2028, U+3000, NUL, BOM, ZWSP, 0x1F, a lone 0xA0 byte)); in a quarter of the cases the single blank inside a tag's delimiters is a run of 1-3 of the four whitespace characters; both versions are rendered once on fresh engines; outputs must be equal and the dashed version must parse whenever the plain one does. After the dashed render a fixed probe template without dashes is parsed on a fresh engine and must render as written, and both versions are parsed and rendered a second time with the same result (a dash has no effect on the templates parsed after it). " +
 			"Non-trivial: at least one dashed delimiter borders a text piece with whitespace on that side. Distinct = distinct dashed source.",
 		assumptions: []string{
 			"text between two tags is empty or contains a non-blank character (whether trimming continues through a tag is not stated)",
@@ -26,7 +26,7 @@ func init() {
 }
 
 func (p *c13) RequiredCounters(string) []string {
-	return []string{"class:corpus-exhaustive", "class:program-random", "long-sources", "after-dash-probes"}
+	return []string{"class:corpus-exhaustive", "class:program-random", "long-sources", "after-dash-probes", "inner-blank-runs"}
 }
 
 // corpus: one entry per tag kind / boundary. Entry = template set + main + context.
@@ -185,11 +185,53 @@ func applyDashBits(ps []mt.Piece, tags []int, bit func(int) bool) ([]mt.Piece, [
 	return dashed, hand, effective
 }
 
+// c13InnerBlanks: in a quarter of the cases (decided by the source itself, so that the generators' streams stay what they
+// were) the single blank between a delimiter and the content of a tag becomes a run of 1-3 characters of {space, tab, CR,
+// LF} — the whitespace a dash sits next to on its inner side. The plain and the hand-trimmed twin get the same runs.
+func c13InnerBlanks(rec *core.Recorder, ps []mt.Piece) []mt.Piece {
+	h := core.Hash64(mt.Join(ps), "inner-blanks")
+	if h%4 != 0 {
+		return ps
+	}
+	out := make([]mt.Piece, len(ps))
+	copy(out, ps)
+	run := func(i int, side string) string {
+		x := core.Hash64(fmt.Sprint(h, i, side))
+		n := 1 + int(x%3)
+		b := make([]byte, n)
+		for k := range b {
+			x /= 4
+			b[k] = wsChars[x%4]
+		}
+		return string(b)
+	}
+	changed := false
+	for i := range out {
+		q := &out[i]
+		if !q.Tag || q.NoDash || q.Open == "{#" || strings.Contains(q.Kind, "verbatim") || q.Kind == "raw" || len(q.Inner) < 3 {
+			continue
+		}
+		if q.Inner[0] == ' ' && q.Inner[1] != ' ' {
+			q.Inner = run(i, "l") + q.Inner[1:]
+			changed = true
+		}
+		if n := len(q.Inner); q.Inner[n-1] == ' ' && q.Inner[n-2] != ' ' {
+			q.Inner = q.Inner[:n-1] + run(i, "r")
+			changed = true
+		}
+	}
+	if changed {
+		rec.Count("inner-blank-runs", 1)
+	}
+	return out
+}
+
 func (p *c13) check(rec *core.Recorder, class string, srcsPlain map[string]string, main string, ps []mt.Piece, tags []int, mask uint64, ctx map[string]interface{}) {
 	p.checkBits(rec, class, srcsPlain, main, ps, tags, func(i int) bool { return i < 64 && mask&(1<<uint(i)) != 0 }, ctx)
 }
 
 func (p *c13) checkBits(rec *core.Recorder, class string, srcsPlain map[string]string, main string, ps []mt.Piece, tags []int, bit func(int) bool, ctx map[string]interface{}) {
+	ps = c13InnerBlanks(rec, ps)
 	dashed, hand, effective := applyDashBits(ps, tags, bit)
 	dsrc, hsrc, psrc := mt.Join(dashed), mt.Join(hand), mt.Join(ps)
 	mk := func(s string) map[string]string {
